@@ -6,7 +6,7 @@
 
 #include "oplist.h"
 using namespace vf;
-using S = QP;
+using S = vf::DefaultScalar;
 using bspline::integration::BilinearForm;
 using bspline::integration::LinearForm;
 
